@@ -18,6 +18,10 @@ def decodeUtf8 (b : Bytes) : Option (List Char) :=
 def asciiEnv : Url.Env :=
   { ipLiteralOk := fun _ => true, nfkcOk := fun _ => true, lowerU := fun s => s.map Url.lowerAscii }
 
+def titanLit : List Char := ['t', 'i', 't', 'a', 'n', ':', '/', '/']
+def geminiLit : List Char := ['g', 'e', 'm', 'i', 'n', 'i', ':', '/', '/']
+def sizeLit : List Char := ['s', 'i', 'z', 'e']
+
 def isWs (c : Char) : Bool := c = ' ' || c = '\t' || c = '\n' || c = '\r' || c = '\x0b' || c = '\x0c'
 def stripWs (s : List Char) : List Char := ((s.dropWhile isWs).reverse.dropWhile isWs).reverse
 
@@ -44,7 +48,7 @@ def pyInt (s0 : List Char) : Option Int :=
 def titanSizeParam (params : List Char) : Option (List Char) :=
   (splitAll ';' params).foldl (fun acc part =>
     match Url.splitOnce '=' part with
-    | some (k, v) => if stripWs k = "size".toList then some (stripWs v) else acc
+    | some (k, v) => if stripWs k = sizeLit then some (stripWs v) else acc
     | none => acc) none
 
 /-- `TitanRequest.from_line` : some size, or none when it raises -/
@@ -59,7 +63,7 @@ def titanParse (env : Url.Env) (line : List Char) : Option Nat :=
       | none => none
       | some n =>
         if n < 0 then none else
-        match Url.parseUrl env ("gemini://".toList ++ urlPart.drop 8) with
+        match Url.parseUrl env (geminiLit ++ urlPart.drop 8) with
         | .ok _ => some n.toNat
         | .error _ => none
 
@@ -161,7 +165,7 @@ def onLine (cfg : Cfg) (s : St) (lineB rest : Bytes) : St :=
   match decodeUtf8 lineB with
   | none => respondFixed s 59 "Invalid UTF-8 encoding"
   | some line =>
-    if "titan://".toList.isPrefixOf line then
+    if titanLit.isPrefixOf line then
       if !cfg.upload then respondFixed s 50 "Titan uploads not supported on this server" else
       match titanParse cfg.env line with
       | none => respondDyn s 59
